@@ -24,7 +24,9 @@ CONSTANTS MaxFields,    \* user-declared fields per type: 0..MaxFields
           MaxDev,       \* deviations applied to a conforming base message: 0..MaxDev
           VaryBase,     \* TRUE: deviating cases start from every conforming base; FALSE: from the canonical base
           MaxTests,     \* Part 2: number of test methods per run: 1..MaxTests
-          RichCapture   \* Part 2: TRUE = all six log contents per test; FALSE = a reduced set
+          RichCapture,  \* Part 2: TRUE = all six log contents per test; FALSE = a reduced set
+          MaxSteps,     \* Part 4: operations per lifecycle of one MemoryLogger
+          LifeWrites    \* Part 4: kinds of message written: subset of {"ok","missing","extra","wrong","xv","nonjson","tb"}
 
 -----------------------------------------------------------------------------
 (* Vocabulary                                                                                                       *)
@@ -257,7 +259,8 @@ TypeNodes == UNION {{[k |-> k, flds |-> flds] : flds \in UserFieldSeqs(k)} : k \
 
 VARIABLES case,      \* Part 1: the case under analysis (or "-" in the other parts)
           cap,       \* Part 2: state of the capture machine (or "-")
-          tr         \* Part 3: index of the recorded execution under validation (or 0)
+          tr,        \* Part 3: index of the recorded execution under validation (or 0)
+          life       \* Part 4: one MemoryLogger through its lifecycle (or "-")
 
 CF  == Fields(case.k, case.flds)
 CExpected == Expected(case.k, CF, case.vals, case.extras)
@@ -266,9 +269,9 @@ CCheck    == ExpectedCheck(case.k, CF, case.vals, case.extras, case.tb)
 
 (* two levels only so that TLC's workers share the enumeration: a (kind, type) node, then its cases *)
 IsCase == "vals" \in DOMAIN case
-CaseInit == case \in TypeNodes /\ cap = "-" /\ tr = 0
-CaseNext == ~IsCase /\ case' \in CasesOf(case.k, case.flds) /\ UNCHANGED <<cap, tr>>
-CaseSpec == CaseInit /\ [][CaseNext]_<<case, cap, tr>>
+CaseInit == case \in TypeNodes /\ cap = "-" /\ tr = 0 /\ life = "-"
+CaseNext == ~IsCase /\ case' \in CasesOf(case.k, case.flds) /\ UNCHANGED <<cap, tr, life>>
+CaseSpec == CaseInit /\ [][CaseNext]_<<case, cap, tr, life>>
 
 (* The procedure accepts exactly what the statement accepts. *)
 C14_AcceptIff == IsCase => ((COutcomes = {"OK"}) <=> StatementAccepts(case.k, CF, case.vals, case.extras))
@@ -317,7 +320,7 @@ HasInvalid(l) == l \in {"invalid", "tb_invalid"}
 CheckForErrors(l) == IF HasUnflushedTb(l) THEN "UnflushedTracebacks"
                      ELSE IF HasInvalid(l) THEN "ValidationError" ELSE "OK"
 
-CapInit == /\ case = "-" /\ tr = 0
+CapInit == /\ case = "-" /\ tr = 0 /\ life = "-"
            /\ \E r \in Runs : cap = [run |-> r, n |-> 1, pc |-> "idle", dl |-> 0, saved |-> 0, stack |-> <<>>,
                                      events |-> {}, during |-> 0, res |-> <<>>]
 
@@ -355,8 +358,8 @@ CapFinish ==  \* unittest reports the test and goes to the next one
                                                  events |-> IF cap.events = {} THEN {"success"} ELSE cap.events])]
 
 CapDone == cap.pc = "idle" /\ cap.n > Len(cap.run) /\ UNCHANGED cap
-CapNext == (CapEnter \/ CapBody \/ CapCleanup \/ CapFinish \/ CapDone) /\ UNCHANGED <<case, tr>>
-CapSpec == CapInit /\ [][CapNext]_<<case, cap, tr>>
+CapNext == (CapEnter \/ CapBody \/ CapCleanup \/ CapFinish \/ CapDone) /\ UNCHANGED <<case, tr, life>>
+CapSpec == CapInit /\ [][CapNext]_<<case, cap, tr, life>>
 
 (* whatever the outcome, between tests the default logger is the one from before the run *)
 C14_LoggerRestored == cap.pc = "idle" => cap.dl = 0
@@ -390,8 +393,102 @@ RecVerdict(r) ==
   ELSE IF ~Matches(expc, r.check) THEN <<"check_for_errors", expc>>
   ELSE <<"", "">>
 
-TraceInit == case = "-" /\ cap = "-" /\ tr \in DOMAIN Recs
-TraceNext == UNCHANGED <<case, cap, tr>>
-TraceSpec == TraceInit /\ [][TraceNext]_<<case, cap, tr>>
+TraceInit == case = "-" /\ cap = "-" /\ tr \in DOMAIN Recs /\ life = "-"
+TraceNext == UNCHANGED <<case, cap, tr, life>>
+TraceSpec == TraceInit /\ [][TraceNext]_<<case, cap, tr, life>>
 EmitVerdict == PrintT(<<"ACC", tr, RecVerdict(Recs[tr])[1], RecVerdict(Recs[tr])[2]>>)
+-----------------------------------------------------------------------------
+(* Part 4: the lifecycle of ONE MemoryLogger                                                                        *)
+(*                                                                                                                  *)
+(* Operations: W_<kind> (a message is written: conforming "ok", or deviating in one way, or a traceback logged by    *)
+(* write_traceback), V (validate()), C (check_for_errors()), R (reset()), F (flushTracebacks(type of the logged      *)
+(* exception)).  The clause: validate() / check_for_errors() report iff the messages written SINCE THE LAST reset()  *)
+(* contain a deviation (check_for_errors: or a traceback neither flushed nor reset away, reported first) - whatever  *)
+(* was validated, reported, flushed or reset before.                                                                *)
+(*                                                                                                                  *)
+(* The logger is transcribed (messages with a "serialized in place" flag, positions of unflushed tracebacks) and,    *)
+(* independently, the clause is stated on the HISTORY of operations; TLC checks that they agree on every behaviour. *)
+(* What the library does not promise is "ANY": validate() replaces stored messages by their serialized contents      *)
+(* (documented side effect), so validating an eliot:traceback message a second time, or flushing tracebacks after    *)
+(* they were validated, has no specified result; from then on, until reset(), nothing is demanded.  Conforming       *)
+(* messages of the lifecycle use fields whose serialization is idempotent.                                          *)
+
+Deviating == {"missing", "extra", "wrong", "xv", "nonjson"}
+DevClass(c) == IF c = "nonjson" THEN "TypeError" ELSE "ValidationError"
+LifeOps == {"W_" \o w : w \in LifeWrites} \cup {"V", "C", "R", "F"}
+KindOfWrite(op) == CHOOSE w \in LifeWrites : op = "W_" \o w
+IsWrite(op) == \E w \in LifeWrites : op = "W_" \o w
+
+LifeInit == /\ case = "-" /\ cap = "-" /\ tr = 0
+            /\ life = [msgs |-> <<>>, unfl |-> {}, unspec |-> FALSE, hist |-> <<>>]
+
+(* validate(): messages in order; the first deviating one decides; an already serialized traceback is unspecified *)
+Stops(m) == m.c \in Deviating \/ (m.c = "tb" /\ m.ser)
+FirstStop(msgs) == IF \E i \in DOMAIN msgs : Stops(msgs[i])
+                   THEN CHOOSE i \in DOMAIN msgs : Stops(msgs[i]) /\ \A j \in DOMAIN msgs : j < i => ~Stops(msgs[j])
+                   ELSE 0
+DevClassesOf(msgs) == {DevClass(msgs[i].c) : i \in {j \in DOMAIN msgs : msgs[j].c \in Deviating}}
+ValidateResult(msgs) ==
+  LET i == FirstStop(msgs) IN
+  IF i = 0 THEN "OK"
+  ELSE IF msgs[i].c = "tb" THEN "ANY"
+  ELSE IF Cardinality(DevClassesOf(msgs)) = 1 THEN DevClass(msgs[i].c) ELSE "REJ"
+AfterValidate(msgs) ==
+  LET i == FirstStop(msgs) IN
+  [j \in DOMAIN msgs |-> IF i = 0 \/ j < i THEN [msgs[j] EXCEPT !.ser = TRUE] ELSE msgs[j]]
+
+LifeStep(op) ==
+  LET L == life
+      done(res, msgs, unfl, unspec) ==
+         life' = [msgs |-> msgs, unfl |-> unfl, unspec |-> unspec, hist |-> Append(L.hist, [op |-> op, res |-> res])]
+      validated == done(ValidateResult(L.msgs), AfterValidate(L.msgs), L.unfl, ValidateResult(L.msgs) = "ANY")
+  IN
+  IF IsWrite(op) THEN
+       LET w == KindOfWrite(op) IN
+       done("-", Append(L.msgs, [c |-> w, ser |-> FALSE]),
+            IF w = "tb" THEN L.unfl \cup {Len(L.msgs) + 1} ELSE L.unfl, L.unspec)
+  ELSE IF op = "R" THEN done("-", <<>>, {}, FALSE)
+  ELSE IF L.unspec THEN done("ANY", L.msgs, L.unfl, TRUE)
+  ELSE IF op = "V" THEN validated
+  ELSE IF op = "C" THEN (IF L.unfl # {} THEN done("UnflushedTracebacks", L.msgs, L.unfl, FALSE) ELSE validated)
+  ELSE \* "F"
+       IF \E i \in L.unfl : L.msgs[i].ser THEN done("ANY", L.msgs, L.unfl, TRUE)
+       ELSE done("flushed" \o ToString(Cardinality(L.unfl)), L.msgs, {}, FALSE)
+
+LifeNext == /\ Len(life.hist) < MaxSteps
+            /\ \E op \in LifeOps : LifeStep(op)
+            /\ UNCHANGED <<case, cap, tr>>
+LifeSpec == LifeInit /\ [][LifeNext]_<<case, cap, tr, life>>
+
+(* the clause, on the history alone *)
+H == life.hist
+LastIdx(ops) == IF \E i \in DOMAIN H : H[i].op \in ops
+                THEN CHOOSE i \in DOMAIN H : H[i].op \in ops /\ \A j \in DOMAIN H : j > i => H[j].op \notin ops
+                ELSE 0
+SinceReset == {i \in DOMAIN H : i > LastIdx({"R"}) /\ i < Len(H)}       \* operations since the last reset, before this one
+DevSince == {i \in SinceReset : IsWrite(H[i].op) /\ KindOfWrite(H[i].op) \in Deviating}
+FlushedBefore(i) == \E j \in SinceReset : j > i /\ H[j].op = "F"
+TbPending == {i \in SinceReset : H[i].op = "W_tb" /\ ~FlushedBefore(i)}
+
+C14_LifeClause ==
+  (H # <<>>) =>
+    LET e == H[Len(H)] IN
+    (e.res # "ANY") =>
+       CASE e.op = "V" -> (e.res = "OK" <=> DevSince = {})
+         [] e.op = "C" -> /\ (e.res = "UnflushedTracebacks" <=> TbPending # {})
+                          /\ (e.res = "OK" <=> (TbPending = {} /\ DevSince = {}))
+         [] e.op = "F" -> e.res = "flushed" \o ToString(Cardinality(TbPending))
+         [] OTHER -> TRUE
+(* a report carries the documented class when all deviations since the reset share it *)
+C14_LifeClass ==
+  (H # <<>>) =>
+    LET e == H[Len(H)] IN
+    (e.op = "V" /\ e.res \in {"ValidationError", "TypeError"}) =>
+        \A i \in DevSince : DevClass(KindOfWrite(H[i].op)) = e.res
+(* nothing is left unspecified unless a traceback is involved *)
+C14_LifeSpecified ==
+  (H # <<>>) => (H[Len(H)].res = "ANY" => \E i \in DOMAIN H : H[i].op = "W_tb")
+
+EmitLife == (Len(life.hist) = MaxSteps /\ life.hist[MaxSteps].op \in {"V", "C"})
+               => PrintT("LIFEJ" \o ToJson(life.hist))
 =============================================================================
